@@ -92,13 +92,27 @@ impl CanCastTo<ResolvedParamType> for ExpressionType {
                 ResolvedParamType::UserDefined(target_type_name) => type_name == target_type_name,
                 _ => false,
             },
+            // the elements of an array are not converted: the element types must be the same
             Self::Array(box_element_type) => match target {
                 ResolvedParamType::Array(target_element_type) => {
-                    box_element_type.can_cast_to(target_element_type)
+                    is_same_type(box_element_type, target_element_type)
                 }
                 _ => false,
             },
         }
+    }
+}
+
+fn is_same_type(expression_type: &ExpressionType, target: &ResolvedParamType) -> bool {
+    match (expression_type, target) {
+        (ExpressionType::BuiltIn(q), ResolvedParamType::BuiltIn(q_target, _)) => q == q_target,
+        (ExpressionType::UserDefined(type_name), ResolvedParamType::UserDefined(target_name)) => {
+            type_name == target_name
+        }
+        (ExpressionType::Array(element_type), ResolvedParamType::Array(target_element_type)) => {
+            is_same_type(element_type, target_element_type)
+        }
+        _ => false,
     }
 }
 
